@@ -29,6 +29,7 @@
 #include <unordered_map>
 #include <unordered_set>
 
+#include "iora/core/verif_hooks.hpp"
 #include "iora/network/dns_client.hpp"
 #include "iora/network/transport_impl.hpp"
 #include "iora/parsers/http_message.hpp"
@@ -954,6 +955,7 @@ private:
     // executeRequest afresh per attempt, so the lease is fully released between
     // attempts and a retry never blocks on a lease this thread already holds.
     ConnectionLease lease = acquireLease(hostPort);
+    IORA_VERIF_EVENT("http.client.attempt", 0, 0); // one exchange attempt starts (lease held)
 
     // Pre-send region (INVARIANT: transmits NO request byte — the request is not
     // even built until below). A failure here — connect/DNS resolution, or the
